@@ -1,6 +1,7 @@
 package main
 
 import (
+	"bytes"
 	"context"
 	"fmt"
 	"math"
@@ -350,13 +351,18 @@ func init() {
 		Rule: "real janitor gated at EvictionNeeded / Stats.Add(cache_evict); seeded cases: L in {10,100,1000}, n in {L-1,L,L+1,2L,10L}, EvictFraction in {default,0.01,0.1,0.5,0.51,1}, strategy {MostExpired,LRU,LFU}, " +
 			"trigger {none,count breach,EvictionNeeded=true once,HeapInUseSoftLimit=1,count+heap}, seeded access history; after exactly one eviction cycle the amount, the cache_evict metric and the strategy order " +
 			"(max rank of removed <= min rank of kept) are judged; distinct_nontrivial = distinct (backend,strategy,trigger,L,n,fraction) cells in which an eviction was due",
-		Required:    []string{"cases.with_long_expired", "cases.no_trigger", "cases.count", "cases.needed", "cases.heap", "evictions.judged", "order.pairs_checked", "strategy.MostExpired", "strategy.LRU", "strategy.LFU"},
+		Required:    []string{"converge.trials", "cases.with_long_expired", "cases.no_trigger", "cases.count", "cases.needed", "cases.heap", "evictions.judged", "order.pairs_checked", "strategy.MostExpired", "strategy.LRU", "strategy.LFU"},
 		Assumptions: []string{"HeapInuse of the child process exceeds 1 byte; wall clock strictly advanced between LRU reads (spin)"},
 		Timeout:     func(string) time.Duration { return 45 * time.Minute },
 	})
 }
 
 func runC12(b *Batch) {
+	for i := 0; i < b.Pick(60, 1200); i++ {
+		if !b.Skip(3000000 + i) {
+			c12Converge(b, 3000000+i)
+		}
+	}
 	n := b.Pick(2400, 400000) / b.NBatches
 	var wg sync.WaitGroup
 	sem := make(chan struct{}, 4)
@@ -463,11 +469,22 @@ func c12Case(b *Batch, idx int) {
 	// prepare content and access history while the janitor is parked
 	rank := map[string]float64{} // strategy rank of each key (lower = evicted first)
 	keys := make([]string, n)
+	prep := "write"
+	if sNames[si] == "MostExpired" && rng.Intn(3) == 0 {
+		prep = []string{"restore", "expireall"}[rng.Intn(2)]
+	}
+	target := be
+	if prep == "restore" {
+		// the content is built in another instance and arrives through Dump/Restore: this instance never sees a TTL'd Write
+		target = newBackend(kind, cache.Config{TimeToLive: cfg.TimeToLive, ExpirationJitter: -1})
+	}
 	for i := 0; i < n; i++ {
 		k := fmt.Sprintf("e%05d", i)
 		keys[i] = k
 		ctx := bg
 		switch {
+		case prep == "expireall" && unlimited:
+			// plain writes only: every entry is a never-expiring one until ExpireAll stamps it
 		case sNames[si] == "MostExpired":
 			// distinct expiries, both expired and not; sometimes never-expiring in an Unlimited cache
 			if unlimited && rng.Intn(4) == 0 {
@@ -482,7 +499,40 @@ func c12Case(b *Batch, idx int) {
 		case !unlimited && rng.Intn(5) == 0:
 			ctx = cache.WithTTL(bg, 2*time.Hour, false)
 		}
-		be.Write(ctx, []byte(k), "v"+k)
+		target.Write(ctx, []byte(k), "v"+k)
+	}
+	if prep != "write" {
+		if prep == "restore" {
+			var buf bytes.Buffer
+			if _, err := target.Dump(&buf); err == nil {
+				if _, err := be.Restore(&buf); err != nil {
+					fail("restore", err.Error())
+				}
+			}
+		} else {
+			// ExpireAll, then more entries: the expired ones have the earliest expiry
+			be.ExpireAll(bg)
+			advanceClock()
+			for k := range rank {
+				delete(rank, k) // formerly never-expiring entries now carry the ExpireAll instant
+			}
+			extra := 1 + rng.Intn(n)
+			for i := 0; i < extra; i++ {
+				k := fmt.Sprintf("x%05d", i)
+				keys = append(keys, k)
+				ctx := bg
+				if !unlimited {
+					ctx = cache.WithTTL(bg, time.Hour+time.Duration(rng.Int63n(int64(time.Hour))), false)
+				} else {
+					rank[k] = math.Inf(1) // plain write into an Unlimited cache: never expires
+				}
+				be.Write(ctx, []byte(k), "v"+k)
+			}
+			n += extra
+		}
+		b.R.Count("cases.prepared_by_"+prep, 1)
+		cell += "/prep=" + prep
+		w["cell"] = cell
 	}
 	switch sNames[si] {
 	case "MostExpired":
@@ -810,6 +860,15 @@ func c11Aging(b *Batch, idx int) {
 					return
 				}
 				judge(tr, tp, "young")
+				if rng.Intn(2) == 0 {
+					// ExpireAll gives every entry (also the never-expiring one) the expiry "now": all of them age from here
+					be.ExpireAll(bg)
+					for k := range E {
+						delete(E, k)
+					}
+					be.Walk(func(k []byte, _ interface{}, exp timeT) error { E[string(k)] = exp.UnixNano(); return nil })
+					b.R.Count("aging.expireall_cases", 1)
+				}
 				// let them age past DeleteExpiredAfter while the janitor is parked, then run another cycle
 				time.Sleep(D + 20*time.Millisecond)
 				tr, tp, ok = cycle()
@@ -1019,3 +1078,57 @@ func (c *calloutStats) Add(_ context.Context, name string, inc float64, _ ...str
 }
 
 func (c *calloutStats) Set(context.Context, string, float64, ...string) {}
+
+// c12Converge: the janitor runs freely (1ms) while writers push the count just above CountSoftLimit and then stop. A breach that
+// persists must be acted upon by a following cycle: bounded progress - within 10 s (thousands of cycles) Len comes down to the limit.
+func c12Converge(b *Batch, idx int) {
+	rng := rand.New(rand.NewSource(b.CaseSeed(idx)))
+	kind := backendKinds[rng.Intn(3)]
+	L := 20 + rng.Intn(40)
+	single := rng.Intn(2) == 0 // exactly one late write crosses the limit
+	if rng.Intn(4) == 0 {
+		// a large SyncMap: counting takes long, so a single late write is likely to land while the janitor counts
+		kind, L, single = "SyncMap", 5000+rng.Intn(10000), true
+	}
+	cfg := cache.Config{DeleteExpiredJobInterval: time.Millisecond, CountSoftLimit: uint64(L), EvictFraction: 0.1, TimeToLive: cache.UnlimitedTTL,
+		EvictionStrategy: c16Strategies[rng.Intn(3)]}
+	if rng.Intn(2) == 0 {
+		cfg.TimeToLive = time.Hour
+	}
+	be := newBackend(kind, cfg)
+	for i := 0; i < L; i++ {
+		be.Write(bg, []byte(fmt.Sprintf("base-%d", i)), "v")
+	}
+	// a handful of late writes from several goroutines, racing with the janitor's count check
+	var wg sync.WaitGroup
+	writers := 2 + rng.Intn(4)
+	if single {
+		writers = 1
+	}
+	for w := 0; w < writers; w++ {
+		wg.Add(1)
+		d := time.Duration(rng.Intn(1500)) * time.Microsecond
+		go func(w int) {
+			defer wg.Done()
+			time.Sleep(d)
+			be.Write(bg, []byte(fmt.Sprintf("late-%d", w)), "v")
+		}(w)
+	}
+	wg.Wait()
+	ok := false
+	for dl := time.Now().Add(10 * time.Second); time.Now().Before(dl); {
+		if be.Len() <= L {
+			ok = true
+			break
+		}
+		time.Sleep(200 * time.Microsecond)
+	}
+	n := be.Len()
+	runtime.KeepAlive(be)
+	b.R.Eval()
+	b.R.Count("converge.trials", 1)
+	b.R.Nontrivial(fmt.Sprintf("converge/%s/L=%d/w=%d/idx=%d", kind, L, writers, idx%50))
+	if !ok {
+		b.R.Violate(b, idx, "C12:"+kind+":breach-not-evicted", fmt.Sprintf("count %d stays above CountSoftLimit %d for 10 s of 1ms cleanup cycles after the writers stopped", n, L), map[string]interface{}{"backend": kind, "L": L})
+	}
+}
